@@ -63,11 +63,12 @@ def run(ctx):
     ctx.cov["inputs"] = {"pairs": len(pairs), "rejected_by_validation": rejected, "fixed": len(FIXED)}
 
     # ---- the class predicate agrees between Coq definition and real data structures
-    ccases = [f"{hexs(p['schema'])} {hexs(p['doc'])} {p['sdump']} {p['adump']}" for p in pairs]
+    ccases = [f"{hexs(p['op']) if p['op'] is not None else '-'} {hexs(p['schema'])} {hexs(p['doc'])} {p['sdump']} {p['adump']}"
+              for p in pairs]
     rows = ctx.correspond(impl, model, "smith_class", ccases,
-                          describe=lambda c: {"schema": unhexs(c.split(' ')[0]), "document": unhexs(c.split(' ')[1])})
+                          describe=lambda c: {"schema": unhexs(c.split(' ')[1]), "document": unhexs(c.split(' ')[2])})
     for p, (_, io, _) in zip(pairs, rows):
-        p["cov"] = io == "cov=1"
+        p["cov"] = io.startswith("cov=1")
     ctx.cov["inputs"]["in_known_class"] = sum(1 for p in pairs if p["cov"])
     covset = {(hexs(p["schema"]), hexs(p["doc"])) for p in pairs if p["cov"]}
 
